@@ -3,4 +3,4 @@
 # current working tree into /verif/target/repo-bins (nothing is written under /repo).
 unset RUSTFLAGS
 export CARGO_NET_OFFLINE=true
-cd /repo && cargo build --offline --release -p searchlite-http -p searchlite-cli --target-dir "${VERIF_ROOT:-/verif}/target/repo-bins"
+cd "${VERIF_REPO:-/repo}" && cargo build --offline --release -p searchlite-http -p searchlite-cli --target-dir "${VERIF_ROOT:-/verif}/target/repo-bins"
